@@ -127,6 +127,17 @@ def ev(n, env):
                 a.frame.key() == b.frame.key():
             return Mask(a.frame, a.conds | b.conds)
         return None
+    if isinstance(n, ast.Call) and isinstance(n.func, ast.Attribute) \
+            and n.func.attr in ('contains', 'startswith', 'endswith', 'match',
+                                'fullmatch') and isinstance(
+                n.func.value, ast.Attribute) and n.func.value.attr == 'str' \
+            and n.args:
+        # a pattern match is not the equality the rules ask for
+        l = ev(n.func.value.value, env)
+        if isinstance(l, Series):
+            return Mask(l.frame, '%s %s %s' % (l.col, n.func.attr,
+                                                U(n.args[0])))
+        return None
     if isinstance(n, ast.Call) and isinstance(n.func, ast.Attribute):
         v = ev(n.func.value, env)
         a = n.func.attr
